@@ -155,6 +155,7 @@ def run_gen(scn):
     except Violation as v:
         out["violation"] = v.to_json()
     out["ticks"] = st["ticks"]
+    out["sim_s"] = st["ticks"] / params["ticks_per_second"]
     out["faults"] = {k: 1 for k in ("zero_prob_class", "prob_one") if scn.get(k)}
     out["sig"] = digest(scn["params"])
     return out
